@@ -282,6 +282,8 @@ type PodSpec struct {
 	Finished bool   `json:"finished,omitempty"`
 	// BoundPending: bound to Node but still in phase Pending (scheduled, containers not started yet)
 	BoundPending bool `json:"boundPending,omitempty"`
+	// EmptyAffinity: `affinity: {}` on a pod that names no group (an empty object, no rule inside)
+	EmptyAffinity bool `json:"emptyAffinity,omitempty"`
 	// Age: the pod was created this many seconds ago (it may predate the node it is bound to:
 	// pods wait for the scale-up that brings their node)
 	Age int64 `json:"age,omitempty"`
@@ -349,6 +351,9 @@ func (w *World) NewPod(s PodSpec) *v1.Pod {
 					{Key: o.LabelKey, Operator: v1.NodeSelectorOpIn, Values: []string{"zzz"}},
 					{Key: o.LabelKey, Operator: v1.NodeSelectorOpIn, Values: []string{o.LabelValue}}}}}}}}
 		}
+	}
+	if s.EmptyAffinity && p.Spec.Affinity == nil {
+		p.Spec.Affinity = &v1.Affinity{}
 	}
 	if s.Cross != "" {
 		var kind string
@@ -487,6 +492,14 @@ func (a Action) String() string {
 		add("node=%s val=%q remove=%v", a.Node, a.Val, a.Flag)
 	case "asgEdit":
 		add("g=%d min=%d max=%d", a.Group, a.N, a.M)
+	case "bulk":
+		add("g=%d %s count=%d from=%d back=%v val=%q", a.Group, a.Key, a.N, a.M, a.D, a.Val)
+	case "condition":
+		add("node=%s Ready=%q", a.Node, a.Val)
+	case "terminating":
+		add("node=%s finalizer-holds=%v", a.Node, a.Flag)
+	case "latency":
+		add("%v", a.D)
 	case "fault":
 		add("%+v", a.Faults)
 	case "fleetPlan":
@@ -509,6 +522,29 @@ func (a Action) String() string {
 // Apply executes an action. It returns the scan record for "scan", nil otherwise.
 // Actions naming objects that no longer exist are no-ops (reported through ok=false).
 func (w *World) Apply(a Action) (rec *ScanRecord, ok bool) {
+	if a.Op != "seq" { // "@newest" names the most recently registered node of the action's group
+		resolve := func(name string) string {
+			if name != "@newest" {
+				return name
+			}
+			best, bestSeq := "", -1
+			for _, n := range w.GroupNodeNames(a.Group) {
+				var g, seq int
+				if _, err := fmt.Sscanf(n, "n%d-%d", &g, &seq); err == nil && seq > bestSeq {
+					best, bestSeq = n, seq
+				}
+			}
+			return best
+		}
+		a.Node = resolve(a.Node)
+		if len(a.Names) > 0 {
+			names := make([]string, len(a.Names))
+			for i, n := range a.Names {
+				names[i] = resolve(n)
+			}
+			a.Names = names
+		}
+	}
 	if a.Op == "seq" {
 		ok = true
 		for _, sub := range a.Seq {
@@ -625,6 +661,70 @@ func (w *World) Apply(a Action) (rec *ScanRecord, ok bool) {
 				}
 			}
 		}
+	case "bulk":
+		names := w.GroupNodeNames(a.Group)
+		if len(names) == 0 {
+			ok = false
+			break
+		}
+		k := a.N
+		if k <= 0 || k > len(names) {
+			k = len(names)
+		}
+		has := func(what string) bool { return strings.Contains(a.Key, what) }
+		for i := 0; i < k; i++ {
+			n := w.K.Nodes[names[(a.M+i)%len(names)]]
+			if n == nil {
+				continue
+			}
+			if has("untaint") {
+				n.Spec.Taints = removeTaint(removeTaint(n.Spec.Taints, ref.TaintKey), ref.ForceTaintKey)
+			} else if has("taint") {
+				n.Spec.Taints = append(removeTaint(n.Spec.Taints, ref.TaintKey), v1.Taint{Key: ref.TaintKey, Value: fmt.Sprint(time.Now().Add(-a.D).Unix()), Effect: v1.TaintEffectNoSchedule})
+			}
+			if has("force") {
+				n.Spec.Taints = append(removeTaint(n.Spec.Taints, ref.ForceTaintKey), v1.Taint{Key: ref.ForceTaintKey, Value: fmt.Sprint(time.Now().Unix()), Effect: v1.TaintEffectNoSchedule})
+			}
+			if has("annotate") {
+				if n.Annotations == nil {
+					n.Annotations = map[string]string{}
+				}
+				n.Annotations[ref.NoDeleteKey] = a.Val
+			}
+			if has("cordon") {
+				n.Spec.Unschedulable = true
+			}
+			if has("drain") {
+				w.dropPodsOn(n.Name)
+			}
+		}
+	case "condition": // Ready condition as the kubelet / node controller reports it ("" removes all conditions)
+		if n := w.K.Nodes[a.Node]; n != nil {
+			if a.Val == "" {
+				n.Status.Conditions = nil
+			} else {
+				n.Status.Conditions = []v1.NodeCondition{
+					{Type: v1.NodeMemoryPressure, Status: v1.ConditionFalse},
+					{Type: v1.NodeReady, Status: v1.ConditionStatus(a.Val), LastTransitionTime: metav1.NewTime(time.Now().Truncate(time.Second))}}
+			}
+		} else {
+			ok = false
+		}
+	case "terminating": // deletionTimestamp set, a finalizer keeps the object (Flag) / the deletion completes (!Flag)
+		if n := w.K.Nodes[a.Node]; n != nil {
+			if a.Flag {
+				ts := metav1.NewTime(time.Now().Truncate(time.Second))
+				n.DeletionTimestamp = &ts
+				n.Finalizers = []string{"example.com/cleanup"}
+			} else if n.DeletionTimestamp != nil {
+				w.K.RemoveNode(a.Node)
+				w.dropPodsOn(a.Node)
+			}
+		} else {
+			ok = false
+		}
+	case "latency":
+		w.K.Latency = a.D
 	case "clearPods": // every pod attributed to the group finishes
 		w.removeGroupPods(a.Group)
 	case "zeroOut": // every node of the group disappears (instances die, node objects go)
